@@ -408,78 +408,54 @@ theorem rotate_preserves_reads (ops : List Op) (k : String) (hk : ¬ metaPath k)
 section RawAccess
 open Obao.RawAccess
 
-/-- **Direct access only for the fixed set.** For every key and every set of live namespaces: `storageByPath` selects
-the direct (unencrypted, unauthenticated) physical access only when the namespace-relative key is EXACTLY
-`core/seal-config` or `core/recovery-config` — no prefix, suffix or sub-path of them — and the namespace resolved from
-the path is the root namespace (writes allowed) or a namespace that no longer exists (writes refused). A live child
-namespace never gets direct access. -/
+/-- **Direct access only for the fixed set.** For every request path and every set of live namespaces: `storageByPath`
+selects the direct (unencrypted, unauthenticated) physical access only when the FULL path — the physical key every
+handler then uses — is EXACTLY `core/seal-config` or `core/recovery-config`: no prefix, suffix or sub-path of them, and
+no `namespaces/<uuid>/` spelling in front (root UUID, unknown UUID or live child alike). -/
+theorem raw_direct_only_for_fixed_set_full (known : List Path) (path : Path) (w : Bool)
+    (h : storageByPath known path = .direct w) : path ∈ fixedKeys := by
+  obtain ⟨hk, he, _⟩ := direct_cases h
+  rw [← he]; exact hk
+
+/-- … and then the namespace resolved from the path is the root namespace with writes allowed (an unknown namespace can
+no longer reach the direct access at all: its paths always carry the prefix). A live child namespace never gets it. -/
 theorem raw_direct_only_for_fixed_set (known : List Path) (path : Path) (w : Bool)
     (h : storageByPath known path = .direct w) :
-    (nsByStoragePath known path).2 ∈ fixedKeys ∧
-    (((nsByStoragePath known path).1 = .root ∧ w = true) ∨ ((nsByStoragePath known path).1 = .unknown ∧ w = false)) :=
-  direct_cases h
+    path ∈ fixedKeys ∧ (nsByStoragePath known path).1 = .root ∧ w = true := by
+  obtain ⟨hk, he, hn⟩ := direct_cases h
+  refine ⟨by rw [← he]; exact hk, ?_⟩
+  rcases hn with hn | ⟨hu, _⟩
+  · exact hn
+  · -- the unknown namespace arises only after a prefix was stripped, and then rest ≠ path
+    exfalso
+    unfold nsByStoragePath at hu he
+    cases hp : cutPrefix nsPrefix path with
+    | none => simp [hp] at hu
+    | some r0 =>
+      simp only [hp] at hu he
+      by_cases hr : r0 = []
+      · simp [hr] at hu
+      · simp only [hr, if_false] at hu he
+        cases hc : cutSlash r0 with
+        | none => simp [hc] at hu
+        | some ab =>
+          obtain ⟨uuid, rest⟩ := ab
+          simp only [hc] at he
+          exact stripped_ne (known := known) hp hc he
 
-/-- For a path that is not of the form `namespaces/…` the namespace-relative key IS the physical key: direct access is
-selected only for the two bootstrap keys themselves. (This is the statement a prefix match in place of the equality
-test breaks: `core/seal-config.bak` would get direct access.) -/
+/-- The statement a prefix match in place of the equality test breaks (`core/seal-config.bak` would get direct access):
+for a path that is not of the form `namespaces/…`, direct access is selected only for the two bootstrap keys themselves.
+(A corollary of the full statement; kept because it names the seeded change it caught.) -/
 theorem raw_plain_path_direct_only_fixed (known : List Path) (path : Path) (w : Bool)
-    (hp : cutPrefix nsPrefix path = none) (h : storageByPath known path = .direct w) : path ∈ fixedKeys := by
-  have := (direct_cases h).1
-  simpa [nsByStoragePath, hp] using this
+    (_hp : cutPrefix nsPrefix path = none) (h : storageByPath known path = .direct w) : path ∈ fixedKeys :=
+  raw_direct_only_for_fixed_set_full known path w h
 
-/-- the full statement about the PHYSICAL key the handlers then use (they pass the full path to the selected storage):
-direct access only under a physical key that is one of the fixed bootstrap keys -/
-def raw_direct_only_for_fixed_set_full : Prop :=
-  ∀ (known : List Path) (path : Path) (w : Bool), storageByPath known path = .direct w → path ∈ fixedKeys
-
-/-- What holds on the current tree: the physical key is a fixed bootstrap key, OR the path spells a namespace by UUID —
-`namespaces/<uuid>/core/seal-config` — where `<uuid>` is the ROOT namespace's all-zero UUID (direct access WITH writes:
-plaintext lands under a physical key that is nobody's bootstrap record) or a UUID that no longer exists (direct
-reads/deletes, writes refused). -/
-theorem raw_direct_only_for_fixed_set_partial (known : List Path) (path : Path) (w : Bool)
-    (h : storageByPath known path = .direct w) :
-    path ∈ fixedKeys ∨
-    ∃ uuid key, key ∈ fixedKeys ∧ path = nsPrefix ++ uuid ++ '/' :: key ∧ '/' ∉ uuid ∧
-      ((uuid = rootUUID ∧ w = true) ∨ (uuid ≠ rootUUID ∧ known.contains uuid = false ∧ w = false)) := by
-  obtain ⟨hk, hn⟩ := direct_cases h
-  unfold nsByStoragePath at hk hn
-  cases hp : cutPrefix nsPrefix path with
-  | none => simp only [hp] at hk; exact Or.inl hk
-  | some rest =>
-    simp only [hp] at hk hn
-    by_cases hr : rest = []
-    · simp only [hr, if_true] at hk; exact Or.inl hk
-    · simp only [hr, if_false] at hk hn
-      cases hc : cutSlash rest with
-      | none => simp only [hc] at hk; exact Or.inl hk
-      | some ab =>
-        obtain ⟨uuid, key⟩ := ab
-        simp only [hc] at hk hn
-        obtain ⟨h1, h2⟩ := cutSlash_eq hc
-        refine Or.inr ⟨uuid, key, hk, ?_, h2, ?_⟩
-        · rw [cutPrefix_eq hp, h1, List.append_assoc]
-        · unfold getNamespace at hn
-          by_cases hu : uuid = rootUUID
-          · simp only [hu, if_true] at hn
-            rcases hn with ⟨_, hw⟩ | ⟨hx, _⟩
-            · exact Or.inl ⟨hu, hw⟩
-            · cases hx
-          · simp only [hu, if_false] at hn
-            by_cases hkn : known.contains uuid = true
-            · simp only [hkn, if_true] at hn
-              rcases hn with ⟨hx, _⟩ | ⟨hx, _⟩ <;> cases hx
-            · simp only [hkn] at hn
-              rcases hn with ⟨hx, _⟩ | ⟨_, hw⟩
-              · cases hx
-              · exact Or.inr ⟨hu, by simpa using hkn, hw⟩
-
-/-- the full statement is FALSE on the current tree: `sys/raw/namespaces/00000000-0000-0000-0000-000000000000/core/seal-config`
-is served by the direct physical access with writes allowed (reproduced on the real Core by stream `corecanary`) -/
-theorem raw_direct_only_for_fixed_set_cex : ¬ raw_direct_only_for_fixed_set_full := by
-  intro h
-  have := h [] (nsPrefix ++ rootUUID ++ '/' :: sealConfigPath) true (by decide)
-  revert this
-  decide
+/-- The UUID spellings that selected the direct access before the F47 repair now go through the root barrier: with
+writes for the root UUID, without for a UUID that no longer exists. -/
+theorem raw_uuid_alias_behind_barrier :
+    storageByPath [] (nsPrefix ++ rootUUID ++ '/' :: sealConfigPath) = .barrier .rootBarrier true ∧
+    storageByPath [] (nsPrefix ++ rootUUID ++ '/' :: recoveryConfigPath) = .barrier .rootBarrier true ∧
+    storageByPath [] (nsPrefix ++ ['u', '/'] ++ sealConfigPath) = .barrier .rootBarrier false := by decide
 
 /-- protected paths are refused whatever the namespace -/
 theorem raw_protected_denied (known : List Path) (path : Path)
@@ -497,7 +473,7 @@ example : storageByPath [] sealConfigPath = .direct true ∧
     storageByPath [] (sealConfigPath ++ ['/', 'x']) = .barrier .rootBarrier true ∧
     storageByPath [] (Obao.RawAccess.keyringPath ++ ['X']) = .denied ∧
     storageByPath [['u']] (nsPrefix ++ ['u', '/'] ++ sealConfigPath) = .barrier (.parentBarrier ['u']) true ∧
-    storageByPath [] (nsPrefix ++ ['u', '/'] ++ sealConfigPath) = .direct false := by decide
+    storageByPath [] recoveryConfigPath = .direct true := by decide
 
 end RawAccess
 
